@@ -237,6 +237,10 @@ namespace sqf::parser::preprocessor
             bool allow_write;
             ::sqf::runtime::diagnostics::diag_info info_if;
             ::sqf::runtime::diagnostics::diag_info info_else;
+            // whether the text around this conditional gets written at all (false inside an inactive branch)
+            bool parent_allow_write = true;
+            // the condition of the branch currently open (#else flips it)
+            bool condition = true;
         };
         struct file_scope
         {
